@@ -416,8 +416,8 @@ def run(ctx):
     D = C.Distinct()
     fails = {}
     terms, meta = [], []
-    txt = C.coq_eval('C07', 'Lib.Prog Model.ApiSem Gen.ApiContent Corr.C07',
-                     '(map c_name (filter supported api_content), shared_defaults)')
+    txt = A.with_fresh_gen(GENS, ['Corr/C07.vo'], lambda: C.coq_eval(
+        'C07', 'Lib.Prog Model.ApiSem Gen.ApiContent Corr.C07', '(map c_name (filter supported api_content), shared_defaults)'))
     parts = txt.split('],')
     supported = set(re.findall(r'"([^"]+)"', parts[0])) if parts else set()
     all_ops = [n for n in A.public_ops() if n not in A.EXCLUDED]
@@ -476,7 +476,8 @@ def run(ctx):
                     if len(users) == 1:
                         terms.append('chk_bmc %s %s' % (c_store(init), C.c_list([c_exchange(x) for x in itf.log])))
                         meta.append(('bmc-history', h))
-    failing, errors = C.coq_cases('C07', 'Lib.Prog Model.ApiSem Model.Bmc Gen.ApiContent Corr.C07', terms, shard=250)
+    failing, errors = A.with_fresh_gen(GENS, ['Corr/C07.vo'], lambda: C.coq_cases(
+        'C07', 'Lib.Prog Model.ApiSem Model.Bmc Gen.ApiContent Corr.C07', terms, shard=250))
     res.mismatches = [{'case': meta[i], 'term': terms[i][:700]} for i in failing[:50]]
     res.extra['mismatch_samples'] = res.mismatches[:5]
     res.corr_errors = errors
